@@ -65,6 +65,11 @@ def opIoRead (j : Json) : R Json := do
     if !failReached && real != whole then
       fails := fails ++ [jList [Json.str "ioread:get_version-differs-from-whole-buffer",
         Json.str s!"get_version over this schedule returned {real}, over the whole buffer {whole}"]]
+    -- … and the answer the specification gives for these bytes (C10_getVersion: a pure function of the bytes,
+    -- computed here by the model, not by the library on a friendlier source)
+    if !failReached && real != m then
+      fails := fails ++ [jList [Json.str "ioread:get_version-differs-from-specified-answer",
+        Json.str s!"get_version returned {real}, the bytes denote {m}"]]
     if failReached && !(real.startsWith "io:") then
       fails := fails ++ [jList [Json.str "ioread:get_version-swallows-io-error",
         Json.str s!"source failed inside the first 12 bytes but get_version returned {real}"]]
